@@ -294,9 +294,15 @@ func c14Close(c *Ctx, pr *PropertyRun) {
 						} else if cc.IsInvoke() && cc.Value == v {
 							// other method on the body (Read): not a release
 						} else {
-							for _, a := range cc.Args {
-								if a == v {
-									// handed to another function (decoder reads it): not a release
+							for ai, a := range cc.Args {
+								if a != v {
+									continue
+								}
+								// handed to another function: a release only if
+								// that is a library function which closes the
+								// body of this very parameter on every path
+								if g := cc.StaticCallee(); g != nil && inLib(g) && closesResponseParam(g, ai) {
+									closeBlocks = append(closeBlocks, x.Block())
 								}
 							}
 						}
@@ -1018,6 +1024,9 @@ func boundedBodyRule(c *Ctx, pr *PropertyRun, prop string) {
 						addGate(g, d+1)
 					}
 				}
+				if isBody(a) {
+					addGate(g, d+1) // handed the body itself
+				}
 			}
 		})
 	}
@@ -1040,7 +1049,21 @@ func boundedBodyRule(c *Ctx, pr *PropertyRun, prop string) {
 			case "io.ReadAll", "io/ioutil.ReadAll":
 				src = 0
 			}
-			if src < 0 || src >= len(cc.Args) || !isBody(cc.Args[src]) {
+			if src < 0 || src >= len(cc.Args) {
+				return
+			}
+			fromBody := isBody(cc.Args[src])
+			if !fromBody && inGate[root] && root != gate {
+				// inside a helper of the gate the body arrives as a parameter
+				v := cc.Args[src]
+				if ci, ok := v.(*ssa.ChangeInterface); ok {
+					v = ci.X
+				}
+				if prm, ok := v.(*ssa.Parameter); ok && types.IsInterface(prm.Type()) {
+					fromBody = true
+				}
+			}
+			if !fromBody {
 				return
 			}
 			r.Role("whole-body-read")
@@ -1073,4 +1096,44 @@ func boundedBodyRule(c *Ctx, pr *PropertyRun, prop string) {
 		}
 	}
 	r.RequireRole("bounded-read-in-gate")
+}
+
+// closesResponseParam: library function g closes the Body of its parameter
+// idx (a *http.Response) on every path: a Close call (or defer) on it whose
+// block dominates every return.
+func closesResponseParam(g *ssa.Function, idx int) bool {
+	if len(g.Blocks) == 0 || idx >= len(g.Params) {
+		return false
+	}
+	prm := g.Params[idx]
+	ok := false
+	eachCall(g, func(site ssa.CallInstruction) {
+		cc := site.Common()
+		if !cc.IsInvoke() || cc.Method.Name() != "Close" {
+			return
+		}
+		// the receiver is (a load of) prm.Body
+		v := cc.Value
+		ld, isLd := v.(*ssa.UnOp)
+		if !isLd {
+			return
+		}
+		fa, isFA := ld.X.(*ssa.FieldAddr)
+		if !isFA || fa.X != ssa.Value(prm) {
+			return
+		}
+		all := true
+		for _, b := range g.Blocks {
+			if b == g.Recover {
+				continue
+			}
+			if _, isRet := b.Instrs[len(b.Instrs)-1].(*ssa.Return); isRet && !site.Block().Dominates(b) {
+				all = false
+			}
+		}
+		if all {
+			ok = true
+		}
+	})
+	return ok
 }
